@@ -75,6 +75,29 @@ type Counterexample struct {
 	Harness  string            `json:"harness"`
 }
 
+// OkSample: a model of the path condition of a path on which every assertion was
+// proven, with what the executor saw on that path; replayed natively to validate the
+// encoding (the native run must end ok and see the same labels).
+type OkSample struct {
+	Values        map[string]uint64 `json:"values"`
+	Reached       []string          `json:"reached"`
+	Asserts       map[string]int    `json:"asserts"`
+	Deterministic bool              `json:"deterministic"` // single goroutine, no schedule/map-order/sort-contract choice
+	OkIndex       int               `json:"ok_index"`
+}
+
+// wantOkSample: the 1st..3rd ok path and every ok path whose ordinal is a power of two.
+func (ex *Explorer) wantOkSample() (int, bool) {
+	ex.mu.Lock()
+	defer ex.mu.Unlock()
+	ex.okSeen++
+	k := ex.okSeen
+	if len(ex.okSamples) >= 24 {
+		return k, false
+	}
+	return k, k <= 3 || k&(k-1) == 0
+}
+
 type PathResult struct {
 	Outcome string // ok, assume, unsupported, unwind, steps, deadlock, panic, infeasible
 	Msg     string
@@ -105,6 +128,8 @@ type Explorer struct {
 	funcsHit   map[string]int
 	stubsHit   map[string]int
 	samples    []PathResult
+	okSamples  []*OkSample
+	okSeen     int
 	stats      SolverStats
 	maxSteps   int
 	totalSteps int
@@ -309,6 +334,22 @@ func (in *Interp) runPath(fn *ssa.Function, prefix []int) (res PathResult) {
 		}
 	}
 	res.Outcome = "ok"
+	if k, want := in.ex.wantOkSample(); want && in.failLabel == "" {
+		if v, model, _ := in.check(nil, true); v == Sat {
+			smp := &OkSample{Values: in.withRanges(model), Asserts: map[string]int{}, OkIndex: k,
+				Deterministic: len(in.gs) == 1 && in.freeChoices == 0}
+			for l := range in.reached {
+				smp.Reached = append(smp.Reached, l)
+			}
+			sort.Strings(smp.Reached)
+			for l, n := range in.pathAsserts {
+				smp.Asserts[l] = n
+			}
+			in.ex.mu.Lock()
+			in.ex.okSamples = append(in.ex.okSamples, smp)
+			in.ex.mu.Unlock()
+		}
+	}
 	return
 }
 
@@ -645,6 +686,7 @@ func (in *Interp) assertProp(c *Term, label string) {
 	in.ex.mu.Lock()
 	in.ex.asserts[label]++
 	in.ex.mu.Unlock()
+	in.pathAsserts[label]++
 	if c.IsConst() && c.BoolVal() {
 		return
 	}
